@@ -194,7 +194,7 @@ def replay_history(ck, hist, rnd, seen_prefix, cubic=False):
                 total = sum(abs(s[1] - s[0]) for s in h['after'])
                 st, en = h['after'][0][0], h['after'][-1][1]
                 got = (warm.length(), warm.start, warm.end)
-                if abs(got[0] - total) > 1e-9 or got[1] != st or got[2] != en:
+                if not (abs(got[0] - total) <= 1e-9) or got[1] != st or got[2] != en:
                     ck.disagree(key='Path/%s/model-answer' % h['op'], site='svgpathtools/path.py:Path',
                                 what='length/start/end %r differ from the model %r' % (got, (total, st, en)),
                                 case={'hist': hist[:n + 1], 'mode': 'warm', 'cubic': cubic}, expected=[total, st, en], observed=repr(got), driver='history')
@@ -249,7 +249,7 @@ def segment_level(ck, rnd, n):
                             got = o.length(**kw)
                             ref = fresh_len(cls, o.bpoints(), scipy_on, error=1e-12, min_depth=11)
                             want = fresh_len(cls, o.bpoints(), scipy_on, **kw)
-                            if abs(got - ref) > abs(want - ref) + 1e-9 * abs(ref):
+                            if not (abs(got - ref) <= abs(want - ref) + 1e-9 * abs(ref)):
                                 key = '%s.length/cache-reused-for-tighter-error' % cls.__name__ if h['e'] == 2 and h['d'] == 1 else \
                                     '%s.length/stale-or-insufficient-cache' % cls.__name__
                                 ck.disagree(key=key, site='svgpathtools/path.py:%s.length/_length_info' % cls.__name__,
